@@ -1075,7 +1075,9 @@ def derived_trimmed(mask, seed, masked, pre_reads):
 def _gen_sim(rng, tier):
     for i in range(gens.budget(tier, 400, 1500)):
         h, w = rng.randint(3, 6), rng.randint(3, 6)
-        yield {"image": gens.reals(rng, (h, w), 0.5, 5.0, special=False), "noise_seed": rng.randint(0, 10 ** 6),
+        # boundary seeds first: 0 is a fixed seed like any other (only -1 asks for a fresh one), as are 1 and 2**32 - 1
+        seed = [0, 1, 2 ** 32 - 1, 2][i] if i < 4 else (rng.choice([0, 1, 2 ** 32 - 1]) if rng.random() < 0.15 else rng.randint(0, 10 ** 6))
+        yield {"image": gens.reals(rng, (h, w), 0.5, 5.0, special=False), "noise_seed": seed,
                "state_a": rng.randint(0, 2 ** 31), "state_b": rng.randint(0, 2 ** 31), "burn": rng.randint(0, 50), "add_noise": i % 4 != 3}
 
 
